@@ -131,7 +131,13 @@ type Config struct {
 	MaxInterval time.Duration
 	MaxElapsed  time.Duration // 0 = no limit
 	Gzip        bool          // HTTP only
+	Interleave  bool          // HTTP only: a second exporter of the same package (other endpoint, other payload) completes an export while attempt 1 of the scripted export is in flight
+	Foreign     bool          // set by the core when it asks Target.New for that second exporter
 }
+
+// ForeignHost is the endpoint host of the second exporter of an Interleave configuration; the
+// scripted transport answers it with 200 at once and does not record it.
+const ForeignHost = "c14-foreign.invalid:4318"
 
 func configs(isHTTP, thorough bool) []Config {
 	cs := []Config{
@@ -142,6 +148,8 @@ func configs(isHTTP, thorough bool) []Config {
 	}
 	if isHTTP {
 		cs = append(cs, Config{Name: "nolimit-gzip", Enabled: true, Initial: 5 * time.Second, MaxInterval: 30 * time.Second, Gzip: true})
+		cs = append(cs, Config{Name: "nolimit-gzip-interleaved", Enabled: true, Initial: 5 * time.Second, MaxInterval: 30 * time.Second, Gzip: true, Interleave: true})
+		cs = append(cs, Config{Name: "nolimit-interleaved", Enabled: true, Initial: 5 * time.Second, MaxInterval: 30 * time.Second, Interleave: true})
 	}
 	if thorough {
 		cs = append(cs, Config{Name: "zero-backoff", Enabled: true, Initial: time.Nanosecond, MaxInterval: time.Nanosecond, MaxElapsed: 3600 * time.Second})
@@ -328,6 +336,10 @@ type runState struct {
 	uctx *scriptCtx
 	exp  Exporter
 	real bool // real wait function in place
+
+	foreign     Exporter // Interleave configurations: exports once while attempt 1 is in flight
+	foreignErr  error
+	foreignDone bool
 
 	steps      []step
 	attempts   int
@@ -587,6 +599,16 @@ func (roundTripper) RoundTrip(req *http.Request) (*http.Response, error) {
 		body, _ = io.ReadAll(req.Body)
 		req.Body.Close()
 	}
+	if req.URL.Host == ForeignHost { // the second exporter of an Interleave configuration: delivered, not recorded
+		return &http.Response{Status: "200 OK", StatusCode: 200, Proto: "HTTP/1.1", ProtoMajor: 1, ProtoMinor: 1,
+			Header: http.Header{}, Body: io.NopCloser(bytes.NewReader(nil)), ContentLength: 0, Request: req}, nil
+	}
+	if rs := cur; rs.foreign != nil && !rs.foreignDone {
+		// attempt 1 of the scripted export is in flight (its body has been read): another
+		// exporter of the same package builds, sends and completes a request of its own now
+		rs.foreignDone = true
+		rs.foreignErr = rs.foreign.Export(context.Background())
+	}
 	enc := req.Header.Get("Content-Encoding")
 	var id bytes.Buffer
 	fmt.Fprintf(&id, "%s %s ct=%q ce=%q cl=%d\n", req.Method, req.URL, req.Header.Get("Content-Type"), enc, req.ContentLength)
@@ -779,6 +801,11 @@ func (d *driver) exec(sc script, cfg Config, realWait bool) *runState {
 		rs.trigger(nil)
 	}
 	rs.exp = d.tg.New(cfg)
+	if cfg.Interleave {
+		fc := cfg
+		fc.Foreign = true
+		rs.foreign = d.tg.New(fc)
+	}
 	if realWait {
 		d.tg.SetWait(nil)
 		defer d.tg.SetWait(Wait)
@@ -912,7 +939,7 @@ func (rs *runState) outcome(tg *Target, ex expect) string {
 func (d *driver) describe(sc script, cfg Config, ex expect, rs *runState) map[string]any {
 	m := map[string]any{
 		"exporter": d.tg.Name,
-		"config":   fmt.Sprintf("%s {Enabled:%v InitialInterval:%v MaxInterval:%v MaxElapsedTime:%v gzip:%v}", cfg.Name, cfg.Enabled, cfg.Initial, cfg.MaxInterval, cfg.MaxElapsed, cfg.Gzip),
+		"config":   fmt.Sprintf("%s {Enabled:%v InitialInterval:%v MaxInterval:%v MaxElapsedTime:%v gzip:%v}", cfg.Name, cfg.Enabled, cfg.Initial, cfg.MaxInterval, cfg.MaxElapsed, cfg.Gzip) + map[bool]string{false: "", true: "; a second exporter of the package completes an export while attempt 1 is in flight"}[cfg.Interleave],
 		"answers":  strings.Join(sc.wordNames(), ", ") + " then 200/OK",
 		"event":    sc.ev.String(),
 		"observed": rs.render(),
@@ -956,7 +983,12 @@ func (d *driver) judge(sc script, cfg Config, ex expect, rs *runState) (key, msg
 		if strings.HasPrefix(rs.payloadBad, "attempt 1:") {
 			k = "payload|first attempt does not carry the export request"
 		}
+		if cfg.Interleave {
+			k += "|another exporter of the package exported in between"
+		}
 		return k, rs.payloadBad
+	case rs.foreignDone && rs.foreignErr != nil:
+		return "interleaved-export-failed", fmt.Sprintf("the second exporter's export (answered 200 at once) returned %v", rs.foreignErr)
 	case rs.afterShut != 0:
 		return "attempt-after-shutdown|in-flight export keeps re-sending", fmt.Sprintf("attempt %d was sent after Shutdown had returned", rs.afterShut)
 	}
